@@ -439,12 +439,11 @@ Inductive frres :=
 | FROk (cns : list cname)             (* canonical names of all path elements, head first *)
 | FRErr (e : err)
 | FRSilent                            (* gave up without an error (aliased reference did not resolve) *)
-| FRCrashParam                        (* AttributeError: RuntimeParameter has no read_transform (F15) *)
 | FRStuck
 | FRFuel.
 
 Inductive devres :=
-| DPhys (t : ftype) | DNoncomposite | DSilent | DCrashParam | DStuck | DFuel.
+| DPhys (t : ftype) | DNoncomposite | DParam | DSilent | DStuck | DFuel.
 
 Section FieldRefs.
   Variable mods : list module.
@@ -470,13 +469,12 @@ Section FieldRefs.
             | None => DStuck
             end
           | FRFuel => DFuel
-          | FRCrashParam => DCrashParam
           | FRStuck => DStuck
           | FRErr _ | FRSilent => DSilent
           end
         end
       end
-    | OParam _ => DCrashParam
+    | OParam _ => DParam        (* `isinstance(previous_field, ir_data.Field)` fails: the while loop ends *)
     | _ => DStuck
     end.
 
@@ -499,8 +497,9 @@ Section FieldRefs.
         | _ => FRStuck
         end
       | DNoncomposite => FRErr (Err KNoncomposite file (snd prevref) (fst prevref) [])
+      (* after the loop: a RuntimeParameter (named directly or reached through an alias) has no members *)
+      | DParam => FRErr (Err KNoncomposite file (snd prevref) (fst prevref) [])
       | DSilent => FRSilent
-      | DCrashParam => FRCrashParam
       | DStuck => FRStuck
       | DFuel => FRFuel
       end
@@ -580,7 +579,8 @@ Definition run_pass1 (i : input) : outcome1 :=
 Inductive outcome2 :=
 | Rejected2 (errs : list err)
 | Resolved2 (paths : list (list cname))
-| CrashParam2
+| CrashParam2      (* AttributeError on a RuntimeParameter (F15): never produced by the model since the fix
+                      e48f2e2/6efa7de; kept so that a regression of the implementation is an observable mismatch *)
 | Stuck2
 | Fuel2.
 
@@ -590,7 +590,6 @@ Fixpoint collect_fr (l : list frres) (oks : list (list cname)) (errs : list err)
   | FROk c :: r => collect_fr r (c :: oks) errs
   | FRErr e :: r => collect_fr r ([] :: oks) (errs ++ [e])
   | FRSilent :: r => collect_fr r ([] :: oks) errs
-  | FRCrashParam :: _ => CrashParam2
   | FRStuck :: _ => Stuck2
   | FRFuel :: _ => Fuel2
   end.
